@@ -97,6 +97,19 @@ pub fn caller_spec_big(idx: usize, size: usize) -> CallerSpec {
     s
 }
 
+/// A well-formed EVENT frame (stream -1): STATUS_CHANGE UP 10.0.0.<n>:9042.
+pub fn event_frame(n: u8) -> Frame {
+    let mut b = Vec::new();
+    for s in ["STATUS_CHANGE", "UP"] {
+        b.extend_from_slice(&(s.len() as u16).to_be_bytes());
+        b.extend_from_slice(s.as_bytes());
+    }
+    b.push(4);
+    b.extend_from_slice(&[10, 0, 0, n]);
+    b.extend_from_slice(&9042i32.to_be_bytes());
+    Frame::response(-1, 0x0C, &b)
+}
+
 pub type Outcome = Result<hook::RawResponse, hook::SendError>;
 
 pub struct Caller {
@@ -128,6 +141,8 @@ pub struct World {
     pub router: TaskId,
     pub handle: hook::RouterHandle,
     pub errors: Box<dyn hook::ErrorRxOps>,
+    pub events: Option<Box<dyn hook::EventRxOps>>,
+    pub events_received: usize,
     pub error_seen: Option<String>,
     pub callers: Vec<Caller>,
     /// requests the peer has received and not (completely) answered, in arrival order
@@ -155,6 +170,8 @@ impl World {
             router,
             handle: parts.handle,
             errors: parts.errors,
+            events: parts.events,
+            events_received: 0,
             error_seen: None,
             callers: Vec::new(),
             held: Vec::new(),
@@ -320,6 +337,18 @@ impl World {
             }
             Ok(None) => Ok(()),
             Err(()) => Err("error-receiver:dropped-silently|the router dropped the connection error sender without sending an error".into()),
+        }
+    }
+
+    /// Take what arrived on the event channel (the consumer of a control connection's events).
+    pub fn drain_events(&mut self) {
+        if let Some(e) = self.events.as_mut() {
+            let got = e.drain();
+            if !got.is_empty() {
+                self.events_received += got.len();
+                let n = got.len();
+                self.log(format!("event consumer took {n} event(s)"));
+            }
         }
     }
 
